@@ -16,7 +16,7 @@ func init() {
 	register(&Check{
 		ID: "C20", Level: "exploration", Primary: "histories", EvalCount: "steps",
 		Rule: "histories of up to 40 operations over a pool of 8 user DNs (cn=u<a..h>,ou=people,...) and 4 group DNs (cn=g<a..d>,ou=groups,...) with fixed-width names (no DN is a substring of another), issued by " +
-			"1..3 clients strictly one operation at a time: Add (0..4 attributes, 1..3 values), Modify of user entries (add-value on new and existing attributes, delete-attribute, replace of an existing attribute, several " +
+			"1..3 clients strictly one operation at a time: Add (0..4 attributes, 1..3 values), Modify of user entries (add-value on new and existing attributes, delete-attribute - bare, or spelling out all the values the attribute has -, replace of an existing attribute, several " +
 			"changes per request - now and then none at all -, multi-valued), Add and Delete of 4 further DNs below the groups base (cn=h<a..d>,ou=groups,..., read back by a search based at the entry's own DN), values of 127..70000 bytes now and then, Delete (users and groups, present and missing), Search (people base with (cn=X); base = entry DN; groups base), SetUsers/SetGroups (model reset with fresh objects, or with entries built by the library's own NewUsers(WithMembersOf) helper, which shares one memberOf slice between all users), and searches with unusual parameters (typesOnly, limits, attribute lists) whose results are not asserted but which must not change the store. " +
 			"A reference model (DN -> attribute -> values) is stepped alongside; after every mutating step the affected entry and one other pool entry are searched and compared, and at the end of each history every pool DN. " +
 			"Values added through add-value modifications may read back plain or BER-wrapped (a well-formed octet string, judged by the harness's own parser); values set through Add, Set* and replace must read back plainly. The user pool has two DNs with a shared parenthesised remark and one written with a blank after its first comma, the group pool one DN outside the groups base; an attribute returned twice in one entry is a violation. distinct_nontrivial = distinct operation-kind sequences (histories) containing at least one mutation followed by a search",
@@ -24,7 +24,7 @@ func init() {
 		Phases: func(tier string, seed int64) []Phase {
 			return []Phase{{Name: "histories-plain", Run: func(c *Ctx) { c20Run(c, "plain") }}, {Name: "histories-tls", Run: func(c *Ctx) { c20Run(c, "tls") }}}
 		},
-		MinObserved: []string{"steps", "searches_compared", "op/add", "op/modify", "op/delete", "op/set", "searches_with_odd_parameters", "searches_based_at_a_dn_below_the_groups_base", "searches_for_dns_with_parentheses", "setusers_with_the_same_objects_again", "histories_steps_with_token_groups_configured", "modifies_without_changes_of_a_missing_entry"},
+		MinObserved: []string{"steps", "searches_compared", "op/add", "op/modify", "op/delete", "op/set", "searches_with_odd_parameters", "searches_based_at_a_dn_below_the_groups_base", "searches_for_dns_with_parentheses", "setusers_with_the_same_objects_again", "histories_steps_with_token_groups_configured", "modifies_without_changes_of_a_missing_entry", "delete_attribute_changes_that_list_all_the_values"},
 	})
 }
 
@@ -450,7 +450,18 @@ func c20History(c *Ctx, td interface {
 					}
 					desc = append(desc, fmt.Sprintf("add-value %s %v", name, vals))
 				case 1: // delete-attribute
-					changes = append(changes, sber.Change{Op: 1, Attr: sber.Attr{Type: []byte(name)}})
+					var listed [][]byte
+					anyWrapped := false
+					for _, w := range wrapped[name] {
+						anyWrapped = anyWrapped || w
+					}
+					if has && !anyWrapped && len(scratch[name]) > 0 && r.Chance(40) {
+						// the request spells out every value the attribute has (values stored by Add, Set* or replace: plain
+						// strings): under any reading of "delete" the attribute is gone afterwards
+						listed = strsToBytes(scratch[name])
+						c.Count("delete_attribute_changes_that_list_all_the_values", 1)
+					}
+					changes = append(changes, sber.Change{Op: 1, Attr: sber.Attr{Type: []byte(name), Vals: listed}})
 					delete(scratch, name)
 					delete(wrapped, name)
 					desc = append(desc, "delete-attribute "+name)
